@@ -280,6 +280,9 @@ def x6_terminate_broken(n=2, with_user=False):
                z3.Or(z3.Not(S["callq.closed"]), z3.Not(S["wakeup._closed"]), z3.Not(S["wakeup.pipe.closed"]),
                      (S["ptable.started"] & ~S["ptable.joined"]) != 0, S["ptable.alive"] != 0,
                      S["shutdown_lock.v"] != 1, S["mgmt.sl.v"] != 1))
+    stuck["C20 after the workers were killed the parent keeps the reading end of the call queue open: a feeder "
+          "thread blocked on a task larger than the pipe buffer never ends (F8)"] = \
+        z3.And(sl.all_ended(), S["fail"] == 0, z3.Not(S["callq.r.closed"]))
     if with_user:
         # every future that submit() handed out is resolved once the manager is done, or submit() raised
         stuck["C01/C02 a future accepted by submit() while the pool broke is never resolved"] = z3.And(sl.all_ended(), undone)
@@ -288,6 +291,41 @@ def x6_terminate_broken(n=2, with_user=False):
     return sl, dict(init=init, safety=safety, stuck=stuck, witness=witness, known=known, assumptions=[
         f"initial state: {n} work ids in any consistent bookkeeping state (queued ones PENDING or user-CANCELLED), 0..2 live workers",
         "kill_process_tree = kill + join (its tree walk is C06); the back-off loop of shutdown_workers is not entered (no live worker left)"])
+
+
+def x10_crash_after_respawn(live0=0):
+    """Some workers of the pool have left on their idle time-out (live0 of live0+1 remain). A user thread submits
+    (real submit -> _ensure_executor_running -> _adjust_process_count spawns the missing worker); that new worker is
+    killed at an arbitrary later instant; the manager thread sits in its real wait_result_broken_or_wakeup loop."""
+    n = 2
+    sl = ExecSlice(n_ids=n, n_workers=2, callq_cap=3, wakeup_cap=2)
+    S = sl.S
+    _obs_basic(sl)
+    sl.thread("M", "manager_watch", [("o", "mt"), ("o", "obs")])
+    sl.thread("U", "user_submit", [("o", "ex"), ("o", "obs")])
+    sl.thread("X", "crashing_worker", [("o", "ptable"), ("c", live0)])
+    sl.finish()
+    m0 = (1 << live0) - 1
+    init = z3.And(*_consistent(S, n), z3.ULE(S["workids.tail"], 1),
+                  S["processes.m"] == m0, S["ptable.alive"] == m0, S["ptable.started"] == m0, S["ptable.exitlock"] == 0,
+                  S["ptable.next"] == live0, S["ex._max_workers"] == live0 + 1, S["mgmt.sl.v"] == 1, S["shutdown_lock.v"] == 1,
+                  z3.ULE(S["wakeup.pipe.n"], 1), S["callq.free"] == 3, S["resq.pipe.n"] == 0,
+                  S["flags.broken?"] == False, S["weakref.dead"] == False, S["flags.shutdown"] == False,
+                  *_refs_present(S))
+    M = [t for t in sl.sys.threads if t.name == "M"][0]
+    U = [t for t in sl.sys.threads if t.name == "U"][0]
+    X = [t for t in sl.sys.threads if t.name == "X"][0]
+    from .model import END
+    ended = lambda t: S[t.pcvar] == z3.BitVecVal(END, 8)
+    safety = {"C01 a management or user thread died on an uncaught exception": S["fail"] != 0}
+    stuck = {"C02 a worker spawned by submit() died but the manager thread waits on a stale set of sentinels: the death is "
+             "never detected, the future stays pending for ever": z3.And(ended(U), ended(X), z3.Not(ended(M))),
+             "C01 submit() blocks for ever": z3.Not(ended(U))}
+    witness = z3.And(sl.all_ended(), S["g.submitted"], S["g.waited"])
+    return sl, dict(init=init, safety=safety, stuck=stuck, witness=witness, assumptions=[
+        f"initial state: {live0} of {live0 + 1} workers left (the others timed out), 0..1 wake-ups already in the pipe, no result in flight",
+        "the manager thread's loop is reduced to its wait (dispatch and result handling are slices x1, x2, x3); no other "
+        "event (another submit, an idle time-out of a sibling) wakes it later"])
 
 
 def x7_reusable_race():
@@ -375,3 +413,34 @@ def x8_manager_drain(n=1, dispatched=False):
         f"initial state: healthy 1-worker pool, {n} task(s) submitted and not yet dispatched, shutdown(wait=True) already flagged the executor and sent its wake-up",
         "the worker is an environment process: takes items in order, answers each with a value or an exception, on a sentinel announces its pid, takes its exit lock and ends",
         "result messages are whole (no partial sends: finding F5 is outside)"])
+
+
+def x9_tracker_race():
+    """Two threads call the real ResourceTracker.ensure_running concurrently after the tracker may have died."""
+    from .slice_tracker import NT, TrackerSlice
+    sl = TrackerSlice(2)
+    S = sl.S
+    for j in range(2):
+        sl.thread(f"T{j + 1}", "tracker_user", [("o", "rt"), ("o", "obs")])
+    sl.finish()
+    init = z3.And(S["rtlock.v"] == 1, S["rtlock.cnt.0"] == 0,
+                  # one tracker was started earlier (fd 1, pid 1); it is alive or has been killed since
+                  S["tk.next"] == 1, z3.ULE(S["tk.alive"], 1), S["tk.wopen"] == 1,
+                  S["rt._fd?"] == True, S["rt._fd"] == 1, S["rt._pid?"] == True, S["rt._pid"] == 1)
+    S.declare("g.was_dead", "bool", None)
+    was_dead0 = S["g.was_dead"]
+    init = z3.And(init, was_dead0 == z3.Not(bit(S["tk.alive"], 0, NT)))
+    safety = {"C12 a thread died inside ensure_running": z3.And(S["fail"] != 0, z3.Not(S["in.spawn_fails"])),
+              "C12 the pipe of a live tracker was closed (it runs its end-of-life cleanup while its clients are alive)": S["g.closed_live"],
+              "C12/C20 a descriptor was closed twice": S["g.double_close"],
+              "C12 ensure_running returned although no live tracker is designated": S["g.bad_return"],
+              "C12 more than one tracker was started for one death (or one although the old one was alive)":
+                  z3.UGT(S["tk.spawned"], z3.If(was_dead0, BV(1), BV(0)))}
+    stuck = {"C12 ensure_running blocks for ever (e.g. reaping a tracker that is alive)": z3.And(z3.Not(sl.all_ended()), z3.Not(S["in.spawn_fails"])),
+             "C12/C20 a pipe end other than the current tracker's write end is left open":
+                 z3.And(sl.all_ended(), z3.Not(S["in.spawn_fails"]),
+                        z3.Or(S["tk.ropen"] != 0, S["tk.wopen"] != z3.If(S["tk.next"] == 2, BV(2), BV(1))))}
+    witness = z3.And(sl.all_ended(), S["g.ensured"] == 2, S["tk.spawned"] == 1)
+    return sl, dict(init=init, safety=safety, stuck=stuck, witness=witness, assumptions=[
+        "kernel model: pipes, tracker processes (alive until the last write end is closed or killed), waitpid blocks on a live child; _check_alive = 'the tracker reading self._fd is alive'",
+        "initial state: one tracker started earlier, alive or killed; the spawn succeeds or raises (symbolic)"])
